@@ -88,11 +88,14 @@ package processor
 // least quorum distinct members of ks, in strictly ascending guardian order.
 //@ pred QuorumSigned(v *vaa.VAA, ks []ethcommon.Address) = vaa.wfVAA(v) && vaa.specVerify(v, ks) && len(v.Signatures) >= 2*len(ks)/3 + 1
 // wfEntry: an aggregation entry is an allocated object with a signature map; every recorded
-// signature is 65 bytes; an entry with our own message has our own VAA.
+// signature is 65 bytes; an entry with our own message has our own VAA; a guardian-set
+// snapshot exists only together with the node's own observation (for a digest the node has
+// not observed, the applicable set is always the current one).
 //@ pred wfEntry(s *vaaState) = s != nil && allocated(s) && s.signatures != nil && allocated(s.signatures)
 //@   | && (forall a in dom(s.signatures) :: len(s.signatures[a]) == 65)
 //@   | && (s.ourMsg != nil ==> s.ourVAA != nil) && (s.ourVAA != nil ==> allocated(s.ourVAA))
 //@   | && (s.gs != nil ==> wfGS(s.gs))
+//@   | && (s.gs != nil ==> s.ourVAA != nil)
 //@ pred InvShape(p *Processor) = p != nil && p.state != nil && allocated(p.state) && p.state.vaaSignatures != nil && allocated(p.state.vaaSignatures) && p.db != nil
 //@   | && (forall h in dom(p.state.vaaSignatures) :: wfEntry(p.state.vaaSignatures[h]))
 //@   | && (forall h1 in dom(p.state.vaaSignatures) :: forall h2 in dom(p.state.vaaSignatures) :: h1 != h2 ==> p.state.vaaSignatures[h1] != p.state.vaaSignatures[h2] && p.state.vaaSignatures[h1].signatures != p.state.vaaSignatures[h2].signatures)
